@@ -550,7 +550,13 @@ func (u *U) execMsg(url string, m sdk.Msg) {
 		u.report(via+".ValidateBasic", cls, pv, input, "")
 	}
 	cls, pv := u.guarded(func() error {
-		_, err, p := u.c.Exec(rt)
+		var err error
+		var p any
+		if u.dry {
+			err, p = u.c.ExecDry(rt)
+		} else {
+			_, err, p = u.c.Exec(rt)
+		}
 		if p != nil {
 			panic(p)
 		}
@@ -761,6 +767,49 @@ func (u *U) lpCalcSection() {
 		}
 	}
 	u.e.Stats["lpcalc.queries"] += n
+}
+
+// liquiditypool position messages, structured: every pool state of setupState (in range, one-sided, never used, reset)
+// x tick ranges x (base, quote) amount pairs including one-sided and empty ones; every position x amount pairs.  Each
+// message runs on a branch of the state that is discarded, so every grid point meets the same pool states.
+func (u *U) lpMsgSection() {
+	a := func(i int) string { return u.c.Accs[i].Addr.String() }
+	ticks := [][2]int64{{-10, 10}, {500, 700}, {-700, -500}, {0, 1}, {-1, 0}, {-4000, 4000}, {600, 650}}
+	amounts := []int64{0, 1, 1000, 1_000_000_000}
+	u.dry = true
+	defer func() { u.dry = false }()
+	n := 0
+	for pool := uint64(0); pool <= u.resetPool; pool++ {
+		pl, found, err := u.c.App.LiquiditypoolKeeper.GetPool(u.c.Ctx(), pool)
+		if err != nil || !found {
+			continue
+		}
+		for _, t := range ticks {
+			for _, ab := range amounts {
+				for _, aq := range amounts {
+					m := &lptypes.MsgCreatePosition{Sender: a(0), PoolId: pool, LowerTick: t[0], UpperTick: t[1],
+						TokenBase:  sdk.Coin{Denom: pl.DenomBase, Amount: sdkmath.NewInt(ab)},
+						TokenQuote: sdk.Coin{Denom: pl.DenomQuote, Amount: sdkmath.NewInt(aq)}, MinAmountBase: sdkmath.ZeroInt(), MinAmountQuote: sdkmath.ZeroInt()}
+					u.execMsg("/sunrise.liquiditypool.v1.MsgCreatePosition", m)
+					n++
+				}
+			}
+		}
+	}
+	for id := uint64(0); id < 8; id++ {
+		pos, found, err := u.c.App.LiquiditypoolKeeper.GetPosition(u.c.Ctx(), id)
+		if err != nil || !found {
+			continue
+		}
+		for _, ab := range amounts {
+			for _, aq := range amounts {
+				u.execMsg("/sunrise.liquiditypool.v1.MsgIncreaseLiquidity", &lptypes.MsgIncreaseLiquidity{Sender: pos.Address, Id: id,
+					AmountBase: sdkmath.NewInt(ab), AmountQuote: sdkmath.NewInt(aq), MinAmountBase: sdkmath.ZeroInt(), MinAmountQuote: sdkmath.ZeroInt()})
+				n++
+			}
+		}
+	}
+	u.e.Stats["lpmsg.messages"] += n
 }
 
 // inputs whose cost can be unbounded; an "unbounded" verdict ends the run, so they come last
